@@ -27,7 +27,9 @@ impl U31x8 {
     pub fn to_simd_vec(data: &[U31]) -> Vec<Self> {
         let mut result = vec![];
         for xs in data.chunks(SIMD_SIZE) {
-            let mut array = [U31::default(); SIMD_SIZE];
+            // Pads the last chunk with the invalid feature id (`U31::MAX`), not with zero:
+            // zero is the id of the empty (BOS/EOS) feature and would match a listed pair.
+            let mut array = [U31::MAX; SIMD_SIZE];
             array[..xs.len()].copy_from_slice(xs);
 
             #[cfg(not(target_feature = "avx2"))]
